@@ -432,6 +432,29 @@ def drive_lookalikes(mon: Monitor, rng: random.Random, n: int) -> None:
                 call(out.to_crs, other)
 
 
+def drive_oneoff(mon: Monitor, rng: random.Random, n: int) -> None:
+    """Per-tile one-off projections (local LAEA / transverse-Mercator CRSs made up on the fly and dropped again): hundreds of distinct CRSs in one process.
+    Whatever is cached along the way, every conversion there and back is judged like any other (post_to_crs)."""
+    import gc
+
+    import shapely.geometry as sg
+    from odc.geo import geom as G
+
+    for i in range(n):
+        lon0, lat0 = rng.uniform(-170, 170), rng.uniform(-70, 70)
+        proj = rng.choice(["+proj=laea +lat_0={lat:.4f} +lon_0={lon:.4f} +x_0=0 +y_0=0 +datum=WGS84 +units=m +no_defs", "+proj=tmerc +lat_0={lat:.4f} +lon_0={lon:.4f} +k=1 +x_0=0 +y_0=0 +datum=WGS84 +units=m +no_defs",
+                           "+proj=aeqd +lat_0={lat:.4f} +lon_0={lon:.4f} +datum=WGS84 +units=m +no_defs"]).format(lat=lat0, lon=lon0)
+        poly = sg.Polygon([(-40_000, -30_000), (50_000, -35_000), (45_000, 40_000), (-42_000, 38_000)], [[(-5_000, -5_000), (5_000, -4_000), (0, 6_000)]])
+        g = G.Geometry(poly, proj)
+        out, exc = call(g.to_crs, "EPSG:4326")
+        if exc is None:
+            call(out.to_crs, proj)
+        del g, out
+        if i % 16 == 0:
+            gc.collect()
+    mon.obs["one_off_crs_conversions"] += n
+
+
 def drive_indirect(mon: Monitor, rng: random.Random, n: int) -> None:
     before = dict(calls)
     for _ in range(n):
@@ -456,6 +479,7 @@ def run(mon: Monitor, tier: str, seed: int, shard: int, nshards: int) -> None:
         drive_fine(mon, rng)
         drive_to_crs(mon, rng, 2500 if q else 40000)
         drive_lookalikes(mon, rng, 150 if q else 2500)
+        drive_oneoff(mon, rng, 260 if q else 1500)
         drive_indirect(mon, rng, 40 if q else 500)
         for pt, n in [("densify", 2000), ("Geometry.segmented", 2000), ("Geometry.to_crs", 1000), ("roundtrip", 200), ("densify|on-axis|vertical", 20), ("densify|far", 200),
                       ("densify|near-axis", 50), ("Geometry.to_crs|same-crs", 20), ("Geometry.to_crs|no-crs", 10), ("roundtrip|datum-shift", 20), ("roundtrip|same-datum", 100),
